@@ -389,6 +389,14 @@ func Walk(v Visitor, node Node) {
 	case *SliceLit:
 		walkList(v, n.Elts)
 
+	case *MatrixLit:
+		for _, row := range n.Elts {
+			walkList(v, row)
+		}
+
+	case *ElemEllipsis:
+		Walk(v, n.Elt)
+
 	case *LambdaExpr:
 		walkList(v, n.Lhs)
 		walkList(v, n.Rhs)
